@@ -14,8 +14,7 @@ namespace Hera
 open Chk
 
 /-- the names a program declares, in order -/
-def declaredKeys (prog : List SOp) : List Val :=
-  prog.filterMap (fun op => if isSymbolDecl op.cls then op.args.head? else none)
+def declaredKeys (prog : List SOp) : List Val := prog.filterMap declKey
 
 theorem err_errors (m : Msgs) (s : String) (loc : Int) : (m.err s loc).errors ≠ [] := by
   simp [Msgs.err]
@@ -27,18 +26,16 @@ theorem go_errors_of_nonempty : ∀ (rest : List SOp) (seen : List Val) (m : Msg
     rw [checkSymbolRedeclaration.go]
     split
     · split
-      · split
-        · exact go_errors_of_nonempty rest seen _ (err_errors _ _ _)
-        · exact go_errors_of_nonempty rest _ m h
-      · exact go_errors_of_nonempty rest seen m h
+      · exact go_errors_of_nonempty rest seen _ (err_errors _ _ _)
+      · exact go_errors_of_nonempty rest _ m h
     · exact go_errors_of_nonempty rest seen m h
 
 theorem declaredKeys_cons (op : SOp) (rest : List SOp) :
-    declaredKeys (op :: rest) = (match (if isSymbolDecl op.cls then op.args.head? else none) with
+    declaredKeys (op :: rest) = (match declKey op with
       | some k => k :: declaredKeys rest | none => declaredKeys rest) := by
   unfold declaredKeys
   rw [List.filterMap_cons]
-  cases (if isSymbolDecl op.cls = true then op.args.head? else none) <;> rfl
+  cases declKey op <;> rfl
 
 /-- the redeclaration pass, exactly: with names `seen` so far and no error so far, it ends without an error iff the
     names still to come are new and pairwise distinct -/
@@ -48,39 +45,35 @@ theorem go_iff : ∀ (rest : List SOp) (seen : List Val) (m : Msgs), m.errors = 
   | [], seen, m, h => by simp [checkSymbolRedeclaration.go, declaredKeys, h]
   | op :: rest, seen, m, h => by
     rw [checkSymbolRedeclaration.go, declaredKeys_cons]
-    by_cases hd : isSymbolDecl op.cls = true
-    · simp only [hd, if_true]
-      cases ha : op.args with
-      | nil =>
-        simp only [List.head?_nil]
-        exact go_iff rest seen m h
-      | cons k tl =>
-        simp only [List.head?_cons]
-        by_cases hs : seen.contains k = true
-        · simp only [hs, if_true]
-          constructor
-          · intro he
-            exact absurd he (go_errors_of_nonempty rest seen _ (err_errors _ _ _))
-          · intro ⟨h1, _⟩
-            exact absurd (by simpa using hs) (h1 k (List.mem_cons_self))
-        · simp only [hs, Bool.false_eq_true, if_false]
-          rw [go_iff rest (k :: seen) m h]
-          have hs' : k ∉ seen := by simpa using hs
-          constructor
-          · intro ⟨h1, h2⟩
-            refine ⟨fun x hx => ?_, ?_⟩
-            · rcases List.mem_cons.mp hx with rfl | hx
-              · exact hs'
-              · exact fun hm => h1 x hx (List.mem_cons_of_mem _ hm)
-            · exact List.nodup_cons.mpr ⟨fun hm => h1 k hm List.mem_cons_self, h2⟩
-          · intro ⟨h1, h2⟩
-            obtain ⟨h3, h4⟩ := List.nodup_cons.mp h2
-            refine ⟨fun x hx hm => ?_, h4⟩
-            rcases List.mem_cons.mp hm with rfl | hm
-            · exact h3 hx
-            · exact h1 x (List.mem_cons_of_mem _ hx) hm
-    · simp only [hd, Bool.false_eq_true, if_false]
+    cases hd : declKey op with
+    | none =>
+      simp only
       exact go_iff rest seen m h
+    | some k =>
+      simp only
+      by_cases hs : seen.contains k = true
+      · simp only [hs, if_true]
+        constructor
+        · intro he
+          exact absurd he (go_errors_of_nonempty rest seen _ (err_errors _ _ _))
+        · intro ⟨h1, _⟩
+          exact absurd (by simpa using hs) (h1 k (List.mem_cons_self))
+      · simp only [hs, Bool.false_eq_true, if_false]
+        rw [go_iff rest (k :: seen) m h]
+        have hs' : k ∉ seen := by simpa using hs
+        constructor
+        · intro ⟨h1, h2⟩
+          refine ⟨fun x hx => ?_, ?_⟩
+          · rcases List.mem_cons.mp hx with rfl | hx
+            · exact hs'
+            · exact fun hm => h1 x hx (List.mem_cons_of_mem _ hm)
+          · exact List.nodup_cons.mpr ⟨fun hm => h1 k hm List.mem_cons_self, h2⟩
+        · intro ⟨h1, h2⟩
+          obtain ⟨h3, h4⟩ := List.nodup_cons.mp h2
+          refine ⟨fun x hx hm => ?_, h4⟩
+          rcases List.mem_cons.mp hm with rfl | hm
+          · exact h3 hx
+          · exact h1 x (List.mem_cons_of_mem _ hx) hm
 
 /-- **C09 (redeclaration, exactly).** The redeclaration pass reports nothing iff no name is declared twice. -/
 theorem C09_redeclaration_iff (prog : List SOp) :
